@@ -2,6 +2,7 @@ package checks
 
 import (
 	"go/ast"
+	"os"
 	"go/token"
 	"go/types"
 	"sort"
@@ -24,10 +25,11 @@ var cloneScratchFields = map[string]string{}
 
 func checkCloneComplete(c *core.Ctx) {
 	c.Rule("C12.R6", "a Clone built field by field carries every field of the source over (no field of the clone is left at its zero value or taken from a different field)", 20)
+	checkCloneLiteralAgreesWithConstructor(c)
 	n := 0
 	for _, p := range c.LibPkgs() {
 		pkg := p
-		if pkg.PkgPath != "github.com/pbenner/autodiff" {
+		if pkg.PkgPath != "github.com/pbenner/autodiff" && !(os.Getenv("C12_SURVEY") != "" && strings.Contains(pkg.PkgPath, "Distribution")) {
 			// the statistics packages build their clones through constructors and reset estimator state on purpose; the
 			// rule is about the containers and scalars, whose clones the algorithms rely on
 			continue
@@ -260,4 +262,99 @@ func pkgRel(p *packages.Package) string {
 		return ""
 	}
 	return s + "."
+}
+
+// checkCloneLiteralAgreesWithConstructor (C12.R6, distribution packages): a Clone written as a composite literal &T{...}
+// sets every field that the constructor's composite literal of T sets. A field the constructor allocates and the clone
+// leaves out is nil/zero in the clone, and the first method that uses it fails or computes with a zero.
+func checkCloneLiteralAgreesWithConstructor(c *core.Ctx) {
+	for _, p := range c.LibPkgs() {
+		if !strings.Contains(p.PkgPath, "/statistics/") {
+			continue
+		}
+		pkg := p
+		info := pkg.TypesInfo
+		litKeys := func(cl *ast.CompositeLit) map[string]bool {
+			m := map[string]bool{}
+			for _, e := range cl.Elts {
+				if kv, ok := e.(*ast.KeyValueExpr); ok {
+					if id, ok := kv.Key.(*ast.Ident); ok {
+						m[id.Name] = true
+					}
+				}
+			}
+			return m
+		}
+		namedOfLit := func(cl *ast.CompositeLit) *types.Named {
+			tv, ok := info.Types[cl]
+			if !ok {
+				return nil
+			}
+			n, _ := tv.Type.(*types.Named)
+			return n
+		}
+		// constructor literals by type: composite literals of T inside functions named New*
+		ctor := map[*types.Named]map[string]bool{}
+		core.EachFunc(pkg, func(_ *ast.File, fd *ast.FuncDecl) {
+			if fd.Recv != nil || !strings.HasPrefix(fd.Name.Name, "New") {
+				return
+			}
+			ast.Inspect(fd.Body, func(n ast.Node) bool {
+				cl, ok := n.(*ast.CompositeLit)
+				if !ok {
+					return true
+				}
+				if nt := namedOfLit(cl); nt != nil {
+					if _, isStruct := nt.Underlying().(*types.Struct); isStruct {
+						ks := litKeys(cl)
+						if len(ks) > 0 {
+							if ctor[nt] == nil {
+								ctor[nt] = map[string]bool{}
+							}
+							for k := range ks {
+								ctor[nt][k] = true
+							}
+						}
+					}
+				}
+				return true
+			})
+		})
+		core.EachFunc(pkg, func(_ *ast.File, fd *ast.FuncDecl) {
+			if fd.Recv == nil || fd.Name.Name != "Clone" {
+				return
+			}
+			// the clone is a single returned composite literal
+			var lit *ast.CompositeLit
+			for _, st := range fd.Body.List {
+				if rs, ok := st.(*ast.ReturnStmt); ok && len(rs.Results) == 1 {
+					e := ast.Unparen(rs.Results[0])
+					if ue, ok := e.(*ast.UnaryExpr); ok && ue.Op == token.AND {
+						e = ue.X
+					}
+					if cl, ok := e.(*ast.CompositeLit); ok {
+						lit = cl
+					}
+				}
+			}
+			if lit == nil {
+				return
+			}
+			nt := namedOfLit(lit)
+			if nt == nil || ctor[nt] == nil {
+				return
+			}
+			have := litKeys(lit)
+			var missing []string
+			for k := range ctor[nt] {
+				if !have[k] {
+					missing = append(missing, k)
+				}
+			}
+			sort.Strings(missing)
+			cons := pkgRel(pkg) + "(" + nt.Obj().Name() + ").Clone"
+			c.Check(len(missing) == 0, "C12.R6", cons, "clone literal sets every field the constructor sets", lit.Pos(),
+				"the constructor of "+nt.Obj().Name()+" sets "+strings.Join(missing, ", ")+", the composite literal of Clone does not: the field is nil/zero in the clone and the first method that uses it fails or computes with a zero")
+		})
+	}
 }
